@@ -158,10 +158,16 @@ def np_delete(ctx, args, kwargs):
                        patterns=[z3.Select(idx.cols[0], j)]), 'pre')
     n = a.length
 
+    # the position maps depend on the index list only (a surviving row r moves to r minus the number of distinct deleted indices below it,
+    # whatever the length of the array), so arrays deleted with the same list share src / dst; the result length belongs to (n, idx)
+    g = ghosts(I)
+    kmaps = ('delete-maps',) + seq_key(idx)
+    if kmaps not in g.cache:
+        g.cache[kmaps] = (z3.Function(I.reg.fresh('src_' + (idx.name or 'idx')), INT, INT), z3.Function(I.reg.fresh('dst_' + (idx.name or 'idx')), INT, INT), cless_of(I, idx))
+    src, dst, cl = g.cache[kmaps]
+
     def build():
         m = z3.Int(I.reg.fresh('dlen'))
-        src = z3.Function(I.reg.fresh('src_' + (idx.name or 'idx')), INT, INT)
-        dst = z3.Function(I.reg.fresh('dst_' + (idx.name or 'idx')), INT, INT)
         r, p, q = z3.Int(I.reg.fresh('r')), z3.Int(I.reg.fresh('p')), z3.Int(I.reg.fresh('q'))
         I.assume(m >= 0)
         I.assume(m <= n)
@@ -170,12 +176,8 @@ def np_delete(ctx, args, kwargs):
         I.assume(z3.ForAll([p], z3.Implies(z3.And(p >= 0, p < m),
                                             z3.And(src(p) >= 0, src(p) < n, z3.Not(mem(src(p))), dst(src(p)) == p)), patterns=[src(p)]))
         I.assume(z3.ForAll([p, q], z3.Implies(z3.And(p >= 0, p < q, q < m), src(p) < src(q)), patterns=[z3.MultiPattern(src(p), src(q))]))
-        # rank form (distinct idx): dst(r) = r - #{j : idx[j] < r},  m = n - len(idx)
-        cl = cless_of(I, idx)
-        distinct = getattr(idx, 'distinct', None)
         return (m, src, dst, cl)
     key = ('delete', n.get_id()) + seq_key(idx)
-    g = ghosts(I)
     if key not in g.cache:
         g.cache[key] = build()
     m, src, dst, cl = g.cache[key]
